@@ -226,7 +226,23 @@ class FaultySNMPImplementation(SnmpError):
     """
 
 
-class NotInTimeWindow(SnmpError):
+class EngineOutOfSync(SnmpError):
+    """
+    Superclass for errors reported by a remote SNMPv3 engine which mean that
+    the data we learned during discovery (engine-id, boots, time) no longer
+    matches that engine. Running the discovery again resolves them.
+    """
+
+
+class UnknownEngineId(EngineOutOfSync):
+    """
+    This exception is raised when the remote engine does not recognise the
+    engine-id we are sending (f.ex. because the discovery response was
+    corrupted, or the device was replaced or reconfigured).
+    """
+
+
+class NotInTimeWindow(EngineOutOfSync):
     """
     This exception is raised when a message is outside the time window
 
